@@ -6,3 +6,8 @@ macro_rules! bail { ($($t:tt)*) => { return Err(AnyError) }; }
 macro_rules! anyhow { ($($t:tt)*) => { AnyError }; }
 #[allow(unused_macros)]
 macro_rules! format { ($($t:tt)*) => { fmt_str("") }; }
+// cosmwasm_std::ensure! / ensure_eq! by their definitions (cosmwasm-std 2.2.2 src/errors/mod.rs... `if !cond { return Err(From::from(e)) }`)
+#[allow(unused_macros)]
+macro_rules! ensure { ($cond:expr, $e:expr $(,)?) => { if !($cond) { return Err(core::convert::From::from($e)); } }; }
+#[allow(unused_macros)]
+macro_rules! ensure_eq { ($a:expr, $b:expr, $e:expr $(,)?) => { if !($a == $b) { return Err(core::convert::From::from($e)); } }; }
